@@ -496,6 +496,117 @@ Proof.
 Qed.
 
 (* ------------------------------------------------------------------------------------ *)
+(* F2. items the documentation refuses by name are refused by getRange                   *)
+
+Lemma atoi_unsigned c r : c <> 43%N -> c <> 45%N ->
+  atoi (c :: r) =
+  match digits_val 0 (c :: r) with
+  | None => None
+  | Some n => if (- 2 ^ 63 <=? n) && (n <=? 2 ^ 63 - 1) then Some n else None
+  end.
+Proof.
+  unfold atoi. destruct c as [|p]; [reflexivity|].
+  do 7 (try (destruct p as [p|p|]; try reflexivity)).
+  all: intros H1 H2; try reflexivity; congruence.
+Qed.
+
+Lemma digits_val_none s : forall acc, forallb is_digit s = false -> digits_val acc s = None.
+Proof.
+  induction s as [|c s IH]; intros acc; cbn [forallb digits_val]; [discriminate|].
+  destruct (is_digit c); [apply IH | reflexivity].
+Qed.
+
+Lemma is_alnum_facts c : is_alnum c = true -> (c <? 128)%N = true /\ c <> 43%N /\ c <> 45%N.
+Proof. unfold is_alnum, is_digit. intros H. repeat split; lia. Qed.
+
+Lemma word_facts s : word s = true ->
+  ascii s = true /\ is_star_or_q s = false /\ exists c r, s = c :: r /\ c <> 43%N /\ c <> 45%N.
+Proof.
+  unfold word. intros H. apply andb_true_iff in H as [Hne Hall]. split; [|split].
+  - unfold ascii. rewrite forallb_forall in *. intros c Hc. apply is_alnum_facts. apply Hall. exact Hc.
+  - destruct (is_star_or_q s) eqn:E; [|reflexivity].
+    destruct (is_star_or_q_cases s E) as [-> | ->]; vm_compute in Hall; discriminate.
+  - destruct s as [|c r]; [discriminate|]. exists c, r. split; [reflexivity|].
+    cbn [forallb] in Hall. apply andb_true_iff in Hall as [Hc _].
+    destruct (is_alnum_facts c Hc) as (_ & H1 & H2). tauto.
+Qed.
+
+Lemma not_number_parse s : word s = true -> not_number s = true ->
+  must_parse_int s = Err EParseInt.
+Proof.
+  intros Hw Hn. destruct (word_facts s Hw) as (_ & _ & c & r & -> & H1 & H2).
+  unfold must_parse_int. rewrite (atoi_unsigned c r H1 H2).
+  unfold not_number in Hn. apply negb_true_iff in Hn. rewrite (digits_val_none _ 0 Hn). reflexivity.
+Qed.
+
+Lemma bad_value_parse f s : word s = true -> bad_value f s = true ->
+  parse_int_or_name s (f_names f) = Err EParseInt.
+Proof.
+  intros Hw Hb. unfold bad_value in Hb. apply andb_true_iff in Hb as [Hn Ha].
+  destruct (word_facts s Hw) as (Hasc & _ & _).
+  unfold parse_int_or_name. rewrite (lower_key_ascii s Hasc), <- spec_assoc_assoc.
+  destruct (spec_assoc (List.map lower1 s) (f_names f)); [discriminate|].
+  apply not_number_parse; assumption.
+Qed.
+
+Lemma pion_cases a names :
+  (exists v, parse_int_or_name a names = Ok v) \/ (exists e, parse_int_or_name a names = Err e).
+Proof.
+  pose proof (parse_int_or_name_no_panic a names) as H.
+  destruct (parse_int_or_name a names) as [v|e|]; [left | right | contradiction]; eexists; reflexivity.
+Qed.
+
+Ltac err_now := eexists; reflexivity.
+
+Theorem refused_item_rejected f r e :
+  fr_ok f r -> refused_item f e = true -> exists err, get_range e r = Err err.
+Proof.
+  intros [Hlo Hhi Hnm Hlo0 Hle Hhi62 Hnok]. unfold refused_item, get_range.
+  destruct (split_on 47 e) as [|rg [|st [|x l]]]; try discriminate; cbn [hd].
+  - destruct (split_on 45 rg) as [|a [|b [|y l]]]; try discriminate; cbn [hd].
+    + intros H. apply andb_true_iff in H as [Wa Ba].
+      destruct (word_facts a Wa) as (_ & -> & _). rewrite <- Hnm, (bad_value_parse f a Wa Ba).
+      cbn [bind]. err_now.
+    + intros H. apply andb_true_iff in H as [H Bab]. apply andb_true_iff in H as [Wa Wb].
+      destruct (word_facts a Wa) as (_ & -> & _). rewrite <- Hnm.
+      destruct (bad_value f a) eqn:Ba; [rewrite (bad_value_parse f a Wa Ba); cbn [bind]; err_now|].
+      destruct (pion_cases a (f_names f)) as [[v ->] | [er ->]]; cbn [bind]; [|err_now].
+      cbn [orb] in Bab. rewrite (bad_value_parse f b Wb Bab). cbn [bind]. err_now.
+  - intros H. apply andb_true_iff in H as [Wst H].
+    destruct (split_on 45 rg) as [|a [|b [|y l]]]; try discriminate; cbn [hd].
+    + apply andb_true_iff in H as [Wa Bs]. destruct (word_facts a Wa) as (_ & -> & _).
+      rewrite <- Hnm.
+      destruct (bad_value f a) eqn:Ba; [rewrite (bad_value_parse f a Wa Ba); cbn [bind]; err_now|].
+      destruct (pion_cases a (f_names f)) as [[v ->] | [er ->]]; cbn [bind]; [|err_now].
+      cbn [orb] in Bs. rewrite (not_number_parse st Wst Bs). cbn [bind]. err_now.
+    + apply andb_true_iff in H as [H Bs]. apply andb_true_iff in H as [Wa Wb].
+      destruct (word_facts a Wa) as (_ & -> & _). rewrite <- Hnm.
+      destruct (bad_value f a) eqn:Ba; [rewrite (bad_value_parse f a Wa Ba); cbn [bind]; err_now|].
+      destruct (pion_cases a (f_names f)) as [[v ->] | [er ->]]; cbn [bind]; [|err_now].
+      destruct (bad_value f b) eqn:Bb; [rewrite (bad_value_parse f b Wb Bb); cbn [bind]; err_now|].
+      destruct (pion_cases b (f_names f)) as [[w ->] | [er ->]]; cbn [bind]; [|err_now].
+      cbn [orb] in Bs. rewrite (not_number_parse st Wst Bs). cbn [bind]. err_now.
+Qed.
+
+Lemma loop_err r e : (exists err, get_range e r = Err err) -> forall items, In e items ->
+  forall acc, exists err, get_field_loop items r acc = Err err.
+Proof.
+  intros He. induction items as [|h items IH]; intros Hin acc; [contradiction|].
+  cbn [get_field_loop]. pose proof (get_range_no_panic h r) as Hnp.
+  destruct (get_range h r) as [b|er|] eqn:E; cbn [bind]; [|err_now | contradiction].
+  destruct Hin as [-> | Hin]; [destruct He as (er & He); congruence|]. apply IH. exact Hin.
+Qed.
+
+Theorem refused_field_rejected f r s :
+  fr_ok f r -> refused_field f s = true -> exists err, get_field s r = Err err.
+Proof.
+  intros Hfr H. unfold refused_field in H. apply existsb_exists in H as (e & Hin & He).
+  unfold get_field, fields_on. apply (loop_err r e (refused_item_rejected f r e Hfr He)).
+  apply filter_In. split; [exact Hin|].
+  destruct e as [|c e']; [vm_compute in He; discriminate | reflexivity].
+Qed.
+
+(* ------------------------------------------------------------------------------------ *)
 (* G. the whole spec                                                                     *)
 
 Lemma fr_second : fr_ok fs_second seconds.
@@ -529,6 +640,40 @@ Proof.
   destruct spec as [|c0 s0]; [exact I|]. set (spec := c0 :: s0) in *.
   destruct (normalize_fields (go_fields spec) o) as [fields| |] eqn:En; try exact I.
   destruct fields as [|f0 [|f1 [|f2 [|f3 [|f4 [|f5 [|f6 l]]]]]]]; try exact I.
+  assert (Hpp : parser_parse v o ll pd spec =
+                bind (get_field f0 seconds) (fun second =>
+                bind (get_field f1 minutes) (fun minute =>
+                bind (get_field f2 hours) (fun hour =>
+                bind (get_field f3 dom) (fun dayofmonth =>
+                bind (get_field f4 months) (fun month =>
+                bind (get_field f5 dow) (fun dayofweek =>
+                  Ok (SpecSched second minute hour dayofmonth month dayofweek LocLocal)))))))).
+  { unfold parser_parse, spec. fold spec. rewrite (strip_tz_none v ll spec Htz). cbn [bind].
+    rewrite Hat, En. reflexivity. }
+  rewrite Hpp. clear Hpp.
+  destruct (refused_field fs_second f0 || refused_field fs_minute f1 || refused_field fs_hour f2 ||
+            refused_field fs_dom f3 || refused_field fs_month f4 || refused_field fs_dow f5) eqn:R.
+  { (* some field holds an item the documentation refuses by name *)
+    pose proof (get_field_no_panic f0 seconds) as N0. pose proof (get_field_no_panic f1 minutes) as N1.
+    pose proof (get_field_no_panic f2 hours) as N2. pose proof (get_field_no_panic f3 dom) as N3.
+    pose proof (get_field_no_panic f4 months) as N4. pose proof (get_field_no_panic f5 dow) as N5.
+    assert (Hone : (exists er, get_field f0 seconds = Err er) \/ (exists er, get_field f1 minutes = Err er) \/
+                   (exists er, get_field f2 hours = Err er) \/ (exists er, get_field f3 dom = Err er) \/
+                   (exists er, get_field f4 months = Err er) \/ (exists er, get_field f5 dow = Err er)).
+    { repeat (apply orb_true_iff in R as [R | R]).
+      - left. apply (refused_field_rejected _ _ _ fr_second R).
+      - right; left. apply (refused_field_rejected _ _ _ fr_minute R).
+      - right; right; left. apply (refused_field_rejected _ _ _ fr_hour R).
+      - right; right; right; left. apply (refused_field_rejected _ _ _ fr_dom R).
+      - right; right; right; right; left. apply (refused_field_rejected _ _ _ fr_month R).
+      - right; right; right; right; right. apply (refused_field_rejected _ _ _ fr_dow R). }
+    destruct (get_field f0 seconds) as [x0|e0|]; cbn [bind]; [|err_now | contradiction].
+    destruct (get_field f1 minutes) as [x1|e1|]; cbn [bind]; [|err_now | contradiction].
+    destruct (get_field f2 hours) as [x2|e2|]; cbn [bind]; [|err_now | contradiction].
+    destruct (get_field f3 dom) as [x3|e3|]; cbn [bind]; [|err_now | contradiction].
+    destruct (get_field f4 months) as [x4|e4|]; cbn [bind]; [|err_now | contradiction].
+    destruct (get_field f5 dow) as [x5|e5|]; cbn [bind]; [|err_now | contradiction].
+    exfalso. destruct Hone as [[er H]|[[er H]|[[er H]|[[er H]|[[er H]|[er H]]]]]]; discriminate. }
   pose proof (field_denotes fs_second seconds f0 fr_second) as H0.
   pose proof (field_denotes fs_minute minutes f1 fr_minute) as H1.
   pose proof (field_denotes fs_hour hours f2 fr_hour) as H2.
@@ -541,17 +686,6 @@ Proof.
   destruct (doc_field fs_dom f3) as [d|]; [|exact I].
   destruct (doc_field fs_month f4) as [e|]; [|exact I].
   destruct (doc_field fs_dow f5) as [f|]; [|exact I].
-  assert (Hpp : parser_parse v o ll pd spec =
-                bind (get_field f0 seconds) (fun second =>
-                bind (get_field f1 minutes) (fun minute =>
-                bind (get_field f2 hours) (fun hour =>
-                bind (get_field f3 dom) (fun dayofmonth =>
-                bind (get_field f4 months) (fun month =>
-                bind (get_field f5 dow) (fun dayofweek =>
-                  Ok (SpecSched second minute hour dayofmonth month dayofweek LocLocal)))))))).
-  { unfold parser_parse, spec. fold spec. rewrite (strip_tz_none v ll spec Htz). cbn [bind].
-    rewrite Hat, En. reflexivity. }
-  rewrite Hpp. clear Hpp.
   destruct a as [a|]; [rewrite H0; cbn [bind] | destruct H0 as (err & ->); eexists; reflexivity].
   destruct b as [b|]; [rewrite H1; cbn [bind] | destruct H1 as (err & ->); destruct c, d, e, f; eexists; reflexivity].
   destruct c as [c|]; [rewrite H2; cbn [bind] | destruct H2 as (err & ->); destruct d, e, f; eexists; reflexivity].
@@ -583,7 +717,11 @@ Proof. vm_compute. repeat eexists. Qed.
 Example parse_denotes_ex_invalid :
   parse_doc_out 380 (bs "* * * * 7") = Some ObsErr /\
   parse_doc_out 380 (bs "* 5-2 * * *") = Some ObsErr /\
-  parse_doc_out 380 (bs "*/0 * * * *") = Some ObsErr.
+  parse_doc_out 380 (bs "*/0 * * * *") = Some ObsErr /\
+  parse_doc_out 380 (bs "0 0 * Mayhem *") = Some ObsErr /\
+  parse_doc_out 380 (bs "+5 0 * jan-marble *") = Some ObsErr /\
+  parse_doc_out 380 (bs "0 0 * * mon/x2") = Some ObsErr /\
+  parse_doc_out 380 (bs "0 0 * * jan") = Some ObsErr.
 Proof. vm_compute. repeat split; reflexivity. Qed.
 
 (* ------------------------------------------------------------------------------------ *)
